@@ -13,7 +13,7 @@ class StrSub(str):
 UNI = ["a", "b", "ä", "😀", "日本", 'q"t', "a b", "c", "", "lone\udc80surrogate", StrSub("sub-str")]
 KINDS = ["k1", "k2", "k3"]
 FLAVOURS = ["plain_str", "str_ids", "str_hook", "obj_cb", "obj_derived", "obj_default", "typed_obj_default", "dw", "typed_str", "typed_str_ids",
-            "typed_obj", "typed_derived", "fs", "typed_mixed", "mixed_ids"]
+            "typed_obj", "typed_derived", "fs", "typed_mixed", "mixed_ids", "fwd_obj"]
 
 KEY_MAPS = {"default": True, "off": False,
             "custom": {"data_id": "i", "str": "s", "kind": "k", "type": "t", "name": "n", "age": "a"}}
@@ -53,6 +53,16 @@ class PlainObj:
 
     def __repr__(self):
         return f"PlainObj<{self.name}>"
+
+
+class FwdObj(PlainObj):
+    """Data for a tree with forward_attrs=True: the object has attributes named like node attributes (`kind`, `data_id`);
+    they are the data's business and never part of the node's own description."""
+
+    def __init__(self, name, typ):
+        super().__init__(name, typ)
+        self.kind = "data-kind-" + name
+        self.data_id = "data-own-id"
 
 
 class FalsyObj(Obj):
@@ -148,6 +158,31 @@ def derived_classes():
 
 def build_source(flavour, f, rng):
     """Returns (tree, save_kwargs, load_class, load_kwargs)."""
+    # a fifth of the trees never see a clone being *added*: their only clones come into being afterwards, when a node is given
+    # the data (and id) of another one by set_data()
+    late = flavour not in ("str_ids", "typed_str_ids", "typed_obj_default") and rng.random() < 0.2
+    gen.FORCE_UNIQUE[0] = late
+    try:
+        t, save_kw, load_cls, load_kw = _build_source(flavour, f, rng)
+    finally:
+        gen.FORCE_UNIQUE[0] = False
+    if late and t.count >= 3 and t.count == t.count_unique:
+        nodes = list(t)
+        for _ in range(3):
+            a, b = rng.sample(nodes, 2)
+            if a.parent is b.parent or any(c.data_id == a.data_id for c in (b.parent.children if b.parent is not None else t.children)):
+                continue
+            if any(x is b for x in a.get_parent_list()) or any(x is a for x in b.get_parent_list()) or b.children:
+                continue  # keep it simple: the re-labelled node is a leaf outside the other one's branch
+            try:
+                b.set_data(a.data, data_id=a.data_id)
+            except Exception:
+                continue
+            break
+    return t, save_kw, load_cls, load_kw
+
+
+def _build_source(flavour, f, rng):
     from nutree import Tree
     from nutree.common import DictWrapper
     from nutree.typed_tree import TypedTree
@@ -216,15 +251,16 @@ def build_source(flavour, f, rng):
             labs = list(range(n))
         gen.build(t, f, lambda i: pool[labs[i]], kind=kind)
         load_cls = cls
-    elif flavour in ("obj_default", "typed_obj_default"):
+    elif flavour in ("obj_default", "typed_obj_default", "fwd_obj"):
         # plain objects keyed by their default (identity) hash: a clone is the *same* object added again; after a
         # round trip the occurrences of one object must again share one data object (clone group preserved)
         cls = TypedTree if typed else Tree
-        t = cls("src")
-        pool = [PlainObj(f"po{i}", rng.choice(["person", "dept"])) for i in range(max(1, n // 2 + 1))]
+        t = cls("src", forward_attrs=True) if flavour == "fwd_obj" else cls("src")
+        OC = FwdObj if flavour == "fwd_obj" else PlainObj
+        pool = [OC(f"po{i}", rng.choice(["person", "dept"])) for i in range(max(1, n // 2 + 1))]
         labs = gen.clone_labeling(rng, f, list(range(len(pool))))
         if labs is None:
-            pool = [PlainObj(f"po{i}", "person") for i in range(n)]
+            pool = [OC(f"po{i}", "person") for i in range(n)]
             labs = list(range(n))
         # every occurrence of one object has the same kind: the documented layout stores a repeated occurrence of
         # *differing* kind in full, which for identity-keyed objects cannot preserve the sharing (not demanded here)
@@ -320,6 +356,13 @@ def data_key(d):
     return d
 
 
+def _node_kind(c):
+    """the kind of a *typed* node (on a plain node of a forward_attrs tree, `.kind` would be the data object's attribute)"""
+    from nutree.typed_tree import TypedNode
+
+    return c.kind if isinstance(c, TypedNode) else None
+
+
 def shape(t):
     """Observable shape for comparing source and loaded tree: (data key, id spec, kind,
     clone group, children).  id spec: 'H' if the id is hash(own data) (default ids of salted or
@@ -335,7 +378,7 @@ def shape(t):
             except TypeError:
                 default = False
             g = groups.setdefault(did, len(groups))
-            out.append((data_key(c.data), "H" if default else (type(did).__name__, did), getattr(c, "kind", None), g, rec(c)))
+            out.append((data_key(c.data), "H" if default else (type(did).__name__, did), _node_kind(c), g, rec(c)))
         return out
 
     return rec(t)
